@@ -36,6 +36,11 @@ if [ "$ID" = "setup" ]; then
   build_harness release dbgchk || exit 2
   "$VERIF_DIR/fuzz/build.sh" asan || exit 2
   "$VERIF_DIR/fuzz/build.sh" asanrel || exit 2
+  # Miri sysroots and the interpreted harness (32-bit-limb stage of C14/C05, thorough-tier Miri stages)
+  (cd "$VERIF_DIR/harness" && for t in i686-unknown-linux-gnu x86_64-unknown-linux-gnu; do
+     MIRIFLAGS="-Zmiri-tree-borrows -Zmiri-disable-isolation -Zmiri-no-extra-rounding-error" CARGO_TARGET_DIR="$BUILD/miri" \
+       cargo +nightly miri run -q --target $t -p mlv --bin mlv-miri -- L32 0 0 >"$BUILD/miri-setup-$t.log" 2>&1 || { cat "$BUILD/miri-setup-$t.log" >&2; exit 2; }
+   done) || exit 2
   "$CARGO_TARGET_DIR/release/mlv" selftest || exit 2
   exit 0
 fi
